@@ -360,7 +360,7 @@ Definition chk (v : value) (leaves : list (list string * value)) : bool :=
             for width in (None, "float32", "float64"):
                 for variant in range(2):
                     tgt = sd.Target(2, prior="box")
-                    cfgkw = dict(parameters=["x_0", "x_1"], prior_bounds={"x_0": (-5.0, 5.0), "x_1": (-5.0, 5.0)},
+                    cfgkw = dict(parameters=["x_0", "x_1"], prior_bounds=tgt.bounds_dict(),
                                  periodic_parameters=["x_0"] if variant else None, bounded_to_unbounded=bool(variant),
                                  bounded_transform="probit" if variant else "logit", eps=1e-5 if variant else 1e-6)
                     a = Aspire(log_likelihood=tgt.log_likelihood, log_prior=tgt.log_prior, dims=2, flow=sd.FakeFlow(2), xp=NS[nsname],
